@@ -99,6 +99,51 @@ func inD17Class(ref, got string) bool {
 	return false
 }
 
+// inD30Class decides whether a language difference is exactly the open known finding D30, the
+// mirror image of D17 under the `s` flag: an alternative that is the class `[^\n]` is turned into
+// `(?-s:.)` by the engine, stripping the flag group leaves `.`, and under the global `(?s)` that dot
+// now matches a newline. The difference belongs to the class iff taking the newline away from some
+// subset of the dots of the generated regex makes it exactly equivalent to the plain reading.
+func inD30Class(ref, got string) bool {
+	pos := dotPositions(got)
+	if len(pos) == 0 {
+		return false
+	}
+	if len(pos) > 8 {
+		// too many dots for every subset: the defining effect instead — the generated regex accepts a
+		// superset of the plain reading and both agree exactly on subject strings without a newline
+		sup := predCompare("(?:"+ref+")|(?:"+got+")", got, reqv.Options{SkipVT: true, MaxState: 300000})
+		if sup.Verdict != reqv.Equal {
+			return false
+		}
+		nonl := predCompare(ref, got, reqv.Options{SkipVT: true, MaxState: 300000, Skip: []rune{'\n'}})
+		return nonl.Verdict == reqv.Equal
+	}
+	n := len(pos)
+	order := []int{(1 << n) - 1}
+	for m := 1; m < (1<<n)-1; m++ {
+		order = append(order, m)
+	}
+	for _, mask := range order {
+		var sb strings.Builder
+		last := 0
+		for i, p := range pos {
+			if mask&(1<<i) == 0 {
+				continue
+			}
+			sb.WriteString(got[last:p])
+			sb.WriteString(`[^\n]`)
+			last = p + 1
+		}
+		sb.WriteString(got[last:])
+		r := predCompare(ref, sb.String(), reqv.Options{SkipVT: true, MaxState: 300000})
+		if r.Verdict == reqv.Equal {
+			return true
+		}
+	}
+	return false
+}
+
 func hasLabel(l []string, x string) bool {
 	for _, s := range l {
 		if s == x {
